@@ -11,11 +11,12 @@ cern_polygamma is replaced by its contract (contracts/harmonic_spec.py); basis o
       d a/d ln mu^2 = -beta_0^(nf+1) a^2 and the coupling decoupling a^(nf) = a (1 - 4/3 T_R L a):
         O(a_s)    d A1/dL == gamma0_emb^(nf) - gamma0^(nf+1)                          (all nine entries, symbolic N, nf = 3, 4, 5; and the non-singlet matrix)
         O(a_s^2)  [L^2] A2 == 1/2 ( A1' gamma0_emb^(nf) - gamma0^(nf+1) A1' + beta0^(nf+1) A1' - 4/3 T_R gamma0_emb^(nf) ),  A1' = dA1/dL   (gluon and light-quark columns)
+                  [L^1] A2 == gamma1_emb^(nf) - gamma1^(nf+1)   (NLO anomalous dimensions, same columns);   non-singlet: [L^1], [L^2] of A_qq,ns^(2) likewise
       with gamma0^(nf+1) the LO anomalous dimensions of nf + 1 flavours in the (g, q, h) basis and gamma0_emb^(nf) those of nf flavours with a non-evolving intrinsic h.
       Polarised space-like O(a_s): the same equation for the gluon and light-quark columns (no intrinsic heavy column is implemented).
         O(a_s^3)  [L^3] A3 == 1/3 ( (2 beta0^(nf+1) - gamma0^(nf+1)) [L^2]A2 + [L^2]A2 gamma0_emb - c11 A1' gamma0_emb + c11^2 gamma0_emb ),  c11 = 4/3 T_R, through the dispatcher (at 6 sample moments to 1e-12: the code's coefficients are 16-digit decimals)
-Not claimed: the lower logarithms and the sum rules at O(a_s^3) (parametrised terms with removable singularities at N = 2), the single-log terms at O(a_s^2) (they need the NLO anomalous dimensions of both
-schemes), the time-like (fragmentation) RG structure.
+Not claimed: the lower logarithms and the sum rules at O(a_s^3) (parametrised terms with removable singularities at N = 2), the heavy-quark (intrinsic) column beyond O(a_s) -- the code implements no O(a_s^2) intrinsic matching, so the
+RG equation is not satisfied there --, the time-like (fragmentation) RG structure.
 """
 from fractions import Fraction as Q
 
@@ -81,7 +82,7 @@ def run(chk):
                        "ekore.operator_matrix_elements.unpolarized.space_like.as1:*", "ekore.operator_matrix_elements.unpolarized.space_like.as2:*",
                        "ekore.operator_matrix_elements.polarized.space_like.as1:*", "ekore.anomalous_dimensions.unpolarized.space_like.as1:*", "ekore.anomalous_dimensions.polarized.space_like.as1:*")
     chk.trust("contract of cern_polygamma (contracts/harmonic_spec.py)", "lemma: derivation of the RG equations of the docstring (chain rule on f^(nf+1) = A f^(nf))", "C16: coupling decoupling a^(nf) = a (1 - 4/3 T_R L a + ...)", "C20: beta_0")
-    chk.uncovered("O(a_s^3) matching (parametrised, removable singularities at N = 2)", "single-log terms at O(a_s^2) (need NLO anomalous dimensions of both schemes)", "time-like RG structure; polarised beyond O(a_s)")
+    chk.uncovered("O(a_s^3) matching (parametrised, removable singularities at N = 2)", "the intrinsic heavy-quark column beyond O(a_s): no O(a_s^2) intrinsic matching elements are implemented, the RG equation cannot hold for that column", "time-like RG structure; polarised beyond O(a_s)")
     undo = harmonic_spec.install()
     L, N = T.var("L"), T.var("N")
     RG = {"N": (2.5, 6.0), "L": (-2.0, 3.0)}
@@ -158,6 +159,22 @@ def run(chk):
                     chk.ground(f"C29.rg.order3.triple_logs[nf={nf}]", worst <= 1e-12, fn="ekore.operator_matrix_elements.unpolarized.space_like:A_singlet", replay=rp, backend="exact-eval+mpmath",
                                goal="[L^3] A3 == 1/3 ((2 beta0' - gamma0') [L^2]A2 + [L^2]A2 gamma0_emb - c11 A1' gamma0_emb + c11^2 gamma0_emb), gluon and light-quark columns, at 6 sample moments to 1e-12",
                                detail=f"largest relative deviation {worst:.2e} at (N, row, column, code, RG) = {where}")
+                    # O(a_s^2) single logs: [L^1]A2 == gamma1_emb(nf) - gamma1(nf+1) on the gluon and light-quark columns (the L-independent part of A1 lives in the heavy column only)
+                    from ekore.anomalous_dimensions.unpolarized.space_like import as2 as g2
+
+                    def nlo(n_f):
+                        return g2.gamma_gg(N, n_f, hc.reset()), g2.gamma_gq(N, n_f, hc.reset()), g2.gamma_qg(N, n_f, hc.reset()), g2.gamma_nsp(N, n_f, hc.reset()), g2.gamma_ps(N, n_f)
+                    gg_, gq_, qg_, nsp_, ps_ = nlo(nf)
+                    gg1_, gq1_, qg1_, nsp1_, ps1_ = nlo(nf + 1)
+                    emb1 = np.array([[gg_, gq_, Q(0)], [qg_, nsp_ + ps_, Q(0)], [Q(0), Q(0), Q(0)]], dtype=object)
+                    full1 = np.array([[gg1_, gq1_, gq1_], [Q(nf, nf + 1) * qg1_, nsp1_ + Q(nf, nf + 1) * ps1_, Q(nf, nf + 1) * ps1_], [qg1_ / (nf + 1), ps1_ / (nf + 1), nsp1_ + ps1_ / (nf + 1)]], dtype=object)
+                    l1 = np.vectorize(lambda e: coeffs_in(T.lift(e), "L", 3)[1], otypes=[object])(np.array(A2, dtype=object))
+                    chk.eq_array(f"C29.rg.order2.single_logs[nf={nf}]", l1[sel2], (emb1 - full1)[sel2], fn="ekore.operator_matrix_elements.unpolarized.space_like.as2:A_singlet", replay=rp, ranges=RG,
+                                 goal="[L^1] A2 == gamma1_emb(nf) - gamma1(nf+1) (NLO anomalous dimensions of both schemes in the (g, q, h) basis), gluon and light-quark columns")
+                    An2 = omod.A_non_singlet((2, 0), N, nf, L)[1]
+                    ns_l = coeffs_in(T.lift(An2[0, 0]), "L", 3)
+                    chk.eq(f"C29.rg.order2.non_singlet.single_log[nf={nf}]", ns_l[1], nsp_ - nsp1_, fn="ekore.operator_matrix_elements.unpolarized.space_like.as2:A_qq_ns", replay=rp, ranges=RG, goal="[L^1] A_qq,ns^(2) == gamma_ns+^(1)(nf) - gamma_ns+^(1)(nf+1)")
+                    chk.eq(f"C29.rg.order2.non_singlet.double_log[nf={nf}]", ns_l[2], -Q(4, 3) * constants.TR * ns / 2, fn="ekore.operator_matrix_elements.unpolarized.space_like.as2:A_qq_ns", replay=rp, ranges=RG, goal="[L^2] A_qq,ns^(2) == -1/2 * 4/3 T_R * gamma_ns^(0)")
                     chk.eq_array(f"C29.rg.order2.double_logs[nf={nf}]", l2[sel2], spec[sel2], fn="ekore.operator_matrix_elements.unpolarized.space_like.as2:A_singlet", replay=rp, ranges=RG,
                                  goal="[L^2] A2 == 1/2 (A1' gamma0_emb - gamma0' A1' + beta0' A1' - 4/3 T_R gamma0_emb), gluon and light-quark columns")
     finally:
